@@ -39,6 +39,9 @@ def main(argv=None):
     e = sub.add_parser('_events')
     e.add_argument('--prop'); e.add_argument('--tier'); e.add_argument('--seed', type=int)
     e.add_argument('--run', type=int)
+    q = sub.add_parser('_seq')
+    q.add_argument('--prop'); q.add_argument('--tier'); q.add_argument('--seed', type=int)
+    q.add_argument('--runs'); q.add_argument('--sig', default='')
     a = ap.parse_args(argv)
 
     env.setup()
@@ -56,6 +59,8 @@ def main(argv=None):
             return runner.worker_main(a)
         if a.cmd == '_events':
             return runner.events_main(a)
+        if a.cmd == '_seq':
+            return runner.seq_main(a)
     except HarnessError as exc:
         print(f'HARNESS-FAILURE: {exc}')
         return 2
